@@ -39,7 +39,8 @@ def repo_clean():
     return out.strip() == ""
 
 def revert():
-    sh("git checkout -- .", REPO)
+    # (patches may add files: remove untracked sources too)
+    sh("git checkout -- . ; git clean -fdq src", REPO)
 
 def repo_tests():
     rc, out = sh("cargo test --offline 2>&1 | grep -E '^test result|FAILED|^error' | head -8", REPO)
